@@ -17,7 +17,7 @@ def rets(P, fn):
 def run(chk, tier):
     P = Prog("default")
     chk.configs.add("default")
-    for r in (r_diff_months, r_month_direction, r_copy_ndt, r_zero_based, r_years_since, r_week, r_small, r_week_bounds, r_absint):
+    for r in (r_diff_months, r_month_direction, r_copy_ndt, r_zero_based, r_years_since, r_week, r_small, r_week_bounds, r_with_pairs, r_absint):
         chk.guarded(r, P, tier)
     chk.assume("that clamping, n-th weekday and week bounds are numerically right for every date is not decided beyond the rules listed")
     return {
@@ -244,3 +244,23 @@ def r_week_bounds(chk, P, tier):
                     bad.setdefault(name, ((y, o, st), got, w))
     for name in ("checked_first_day", "checked_last_day"):
         chk.expect(name not in bad, name, "NaiveWeek::%s deviates at (year, ordinal, week start) %s: got %s, expected %s" % ((name,) + bad.get(name, ((), 0, 0))), loc=P.loc(NW + "::" + name), detail_ok="%d evaluations" % n)
+
+
+def r_with_pairs(chk, P, tier):
+    """DateTime's single-field replacements forward to the replacement of the SAME field on the wall-clock value; an "unchanged" shortcut may only consult the
+    getter of that same field (with_month <-> month(), with_month0 <-> month0(), ...)"""
+    from rules import callees
+    chk.rule("PAIR.with_getter", "each DateTime::with_X closure calls NaiveDateTime::with_X and, if it looks at the current value, only the getter X()", floor=11)
+    n = 0
+    for name in sorted(P.fns):
+        if not (name.startswith("<datetime::DateTime<Tz> as traits::") and "::with_" in name and name.endswith("::{closure#0}") and P.has(name)):
+            continue
+        field = name.split(">::with_")[1].split("::")[0]
+        cs = {c.split("::")[-1] for c in callees(P, name) if c.startswith(("naive::", "<naive::"))}
+        withs = {c for c in cs if c.startswith("with_")}
+        getters = cs - withs
+        n += 1
+        chk.expect(withs == {"with_" + field} and getters <= {field}, "with_" + field, "DateTime::with_%s forwards to %s and consults %s (expected with_%s and at most the getter %s())" % (
+            field, sorted(withs), sorted(getters), field, field), loc=P.loc(name))
+    if n < 11:
+        raise AnchorLost("only %d DateTime::with_* closures found" % n)
